@@ -1,10 +1,11 @@
-\* C14: several keyspaces, rotation requests with memtable ids (2 workers, queue capacity 4)
+\* C14: several keyspaces, rotation requests with memtable ids (3 workers, queue capacity 4)
 SPECIFICATION Spec
 CONSTANTS
-  NWorkers = 2
+  NWorkers = 3
   QCap = 4
-  MaxWrites = 10
+  MaxWrites = 9
   Ks = {1, 2}
+  AsFound = FALSE
   FlushTrySend = FALSE
 INVARIANTS TasksAnnounced SealedHasTask NoStalledForEver
 CHECK_DEADLOCK FALSE
